@@ -9,7 +9,7 @@
 (* handlers of its ancestors, then to the observers - one Deliver action per   *)
 (* receiver, so that an abort can be raised at every single delivery.          *)
 (*                                                                             *)
-(* cfg: [kind  |-> "opt" | "eval" | "seq" | "nested",                          *)
+(* cfg: [kind  |-> "opt" | "eval" | "seq" | "nested" | "renest",                          *)
 (*       K     |-> evaluations requested by the (outer) scripted optimizer,    *)
 (*       Kin   |-> evaluations of each inner run,                              *)
 (*       failAt|-> evaluator call number that yields too few realizations (0), *)
@@ -24,13 +24,17 @@ vars == <<cfg, m, stack, stream, emc, callc, aborted, rets, refused>>
 
 Handlers(level) == [i \in 1..NH |-> [kind |-> "h", level |-> level, idx |-> i]]
 Observers == [i \in 1..NO |-> [kind |-> "o", level |-> 0, idx |-> i]]
-Receivers(level) == IF level = 2 THEN Handlers(2) \o Handlers(1) \o Observers ELSE Handlers(1) \o Observers
+\* Level 3 is a SECOND outer plan (kind "renest"): after the first outer run it runs the same inner plan as its own nested
+\* optimisation - the inner plan's events then travel to the handlers of the plan that runs it now.
+\* outer: the plan an inner run reports to (for an outer plan: itself)
+ReceiversOf(level, outer) == IF level = 2 THEN Handlers(2) \o Handlers(outer) \o Observers ELSE Handlers(level) \o Observers
+Receivers(level) == ReceiversOf(level, 1)
 
 \* A step machine m = [level, step, kind ("opt"|"eval"), st, k, K, em, di, exit, done (completed functions), nested]
 \* st: "start" -> "emit"(em) -> ... -> "ret"
 NewStep(level, step, kind, K, nested) ==
   [level |-> level, step |-> step, kind |-> kind, st |-> "emit", em |-> "START_STEP", di |-> 0, k |-> 0, K |-> K,
-   exit |-> "none", done |-> 0, nested |-> nested, unmatched |-> FALSE]
+   exit |-> "none", done |-> 0, nested |-> nested, unmatched |-> FALSE, outer |-> IF level = 2 THEN 1 ELSE level]
 
 Normal(kind) == IF kind = "eval" THEN "evalfinished" ELSE "finished"
 
@@ -51,11 +55,11 @@ Init == /\ cfg \in {}          \* instantiated by the MC module
 \* deliver the current emission of the active machine to the next receiver
 Deliver ==
   /\ m.st = "emit"
-  /\ LET rc == Receivers(m.level)
+  /\ LET rc == ReceiversOf(m.level, m.outer)
          pos == m.di + 1
          em == IF m.di = 0 THEN emc + 1 ELSE emc
      IN /\ emc' = em
-        /\ stream' = Append(stream, [em |-> em, etype |-> m.em, step |-> m.step, level |-> m.level, recv |-> rc[pos]])
+        /\ stream' = Append(stream, [em |-> em, etype |-> m.em, step |-> m.step, level |-> m.level, outer |-> m.outer, recv |-> rc[pos]])
         /\ IF cfg.abEm = em /\ cfg.abRc = pos
            THEN m' = AbortDuring(m)
            ELSE IF pos = Len(rc) THEN m' = AfterEmission([m EXCEPT !.di = 0])
@@ -68,7 +72,7 @@ Loop ==
   /\ IF m.kind = "eval"
      THEN m' = (IF m.k = 0 THEN [m EXCEPT !.st = "emit", !.em = "START_EVAL", !.k = 1] ELSE [m EXCEPT !.st = "finish", !.exit = Normal(m.kind)])
      ELSE IF m.k = m.K THEN m' = [m EXCEPT !.st = "finish", !.exit = Normal(m.kind)]
-     ELSE IF m.level = 1 /\ cfg.maxfun > 0 /\ m.done >= cfg.maxfun THEN m' = [m EXCEPT !.st = "finish", !.exit = "maxfun"]
+     ELSE IF m.level # 2 /\ cfg.maxfun > 0 /\ m.done >= cfg.maxfun THEN m' = [m EXCEPT !.st = "finish", !.exit = "maxfun"]
      ELSE IF m.nested THEN m' = [m EXCEPT !.st = "nested", !.k = m.k + 1]
      ELSE m' = [m EXCEPT !.st = "emit", !.em = "START_EVAL", !.k = m.k + 1]
   /\ UNCHANGED <<cfg, stack, stream, emc, callc, aborted, rets, refused>>
@@ -80,7 +84,8 @@ EnterNested ==
      THEN /\ refused' = Append(refused, [level |-> 2])
           /\ m' = [m EXCEPT !.st = "finish", !.exit = "abort"]          \* an aborted inner plan aborts the outer run
           /\ UNCHANGED stack
-     ELSE /\ stack' = <<m>> /\ m' = NewStep(2, 100 + m.k, "opt", cfg.Kin, FALSE) /\ UNCHANGED refused
+     ELSE /\ stack' = <<m>> /\ UNCHANGED refused
+          /\ m' = [NewStep(2, (IF m.level = 3 THEN 150 ELSE 100) + m.k, "opt", cfg.Kin, FALSE) EXCEPT !.outer = m.level]
   /\ UNCHANGED <<cfg, stream, emc, callc, aborted, rets>>
 
 \* the user evaluator is called
@@ -114,6 +119,8 @@ Return ==
                   ELSE IF m.exit # "finished" THEN [stack[1] EXCEPT !.st = "finish", !.exit = "nestedfailed"]
                   ELSE [stack[1] EXCEPT !.st = "emit", !.em = "START_EVAL"]
           /\ UNCHANGED refused
+     ELSE IF cfg.kind = "renest" /\ m.step = 1          \* another (not aborted) outer plan runs the same inner plan
+          THEN /\ m' = NewStep(3, 2, "opt", cfg.K, TRUE) /\ UNCHANGED <<stack, refused>>
      ELSE IF cfg.kind = "seq" /\ m.step = 1
           THEN IF aborted'[1]
                THEN /\ refused' = Append(refused, [level |-> 1]) /\ m' = [m EXCEPT !.st = "end"] /\ UNCHANGED stack
@@ -147,10 +154,10 @@ WellBracketed == \A s \in {stream[i].step : i \in 1..Len(stream)} :
                       ELSE Bracketed(t, 1, FALSE, TRUE)
 \* deliveries of one emission follow the receiver order, each receiver at most once
 DeliveryOrder == \A i, j \in 1..Len(stream) : (i < j /\ stream[i].em = stream[j].em) =>
-                    \E p, q \in 1..Len(Receivers(stream[i].level)) :
-                       p < q /\ Receivers(stream[i].level)[p] = stream[i].recv /\ Receivers(stream[i].level)[q] = stream[j].recv
+                    LET rc == ReceiversOf(stream[i].level, stream[i].outer) IN
+                    \E p, q \in 1..Len(rc) : p < q /\ rc[p] = stream[i].recv /\ rc[q] = stream[j].recv
 \* after an abort: USER_ABORT reported, plan latched
 AbortLatches == \A i \in 1..Len(rets) : rets[i].code = "abort" => aborted[rets[i].level]
-NestedAbortReachesParent == (m.st = "end" /\ aborted[2]) => aborted[1]
+NestedAbortReachesParent == (m.st = "end" /\ aborted[2]) => aborted[1] \/ aborted[3]
 Terminates == <>(m.st = "end")
 =============================================================================
